@@ -78,6 +78,7 @@ def run(ctx):
     if macro:
       ctx.check(not skip_f, 'C15.consumer', construct(pc), 'macro definitions are always applied (never subject to skipping)',
                 'macro definitions are applied only under %s' % skip_f, pc.loc(n.ast), instance='macro')
+      n_macro = True
     else:
       ok = any(fct[2] is False and fct[1].replace(' ', '') == '_should_skip(selector,skip_unknown)' for fct in skip_f)
       ctx.check(ok, 'C15.consumer', construct(pc), 'a binding is applied iff its target is not skipped',
@@ -90,29 +91,7 @@ def run(ctx):
   ctx.check(ok, 'C15.consumer', construct(pc), 'a failing import is swallowed only when skip_unknown is set', 'ImportError is swallowed unconditionally (or never)', pc.loc(hs[0]) if hs else pc.loc(), instance='import')
 
   # ---- C15.placeholder
-  dr = ctx.func('config.ParserDelegate.configurable_reference')
-  g3, facts3 = std_facts(prog, dr)
-  okp = True
-  n_r = 0
-  for n in g3.live_nodes():
-    if n.kind != 'return' or not isinstance(n.ast.value, ast.Call):
-      continue
-    n_r += 1
-    q = prog.resolve_call(dr, n.ast.value)
-    sk = [fct for fct in facts3[n.id] if fct[0] == 'c' and fct[1].startswith('_should_skip(')]
-    if q == 'config._UnknownConfigurableReference':
-      okp = okp and any(f[2] is True for f in sk)
-    elif q == 'config.ConfigurableReference':
-      okp = okp and any(f[2] is False for f in sk)
-    else:
-      okp = False
-  ctx.check(okp and n_r >= 2, 'C15.placeholder', construct(dr), 'the delegate builds a placeholder iff the reference target is skipped, a real reference otherwise',
-            'the delegate no longer returns placeholder iff skipped', dr.loc(), instance='iff')
-  sk_calls = [c for c in walk_local(dr.node) if isinstance(c, ast.Call) and prog.resolve_call(dr, c) == SKIP]
-  ok = bool(sk_calls) and all(u(c.args[1]) == 'self._skip_unknown' for c in sk_calls)
-  uns = def_of(facts3[[n for n in g3.live_nodes() if n.kind == 'test'][0].id], u(sk_calls[0].args[0])) if sk_calls and [n for n in g3.live_nodes() if n.kind == 'test'] else None
-  ctx.check(ok and uns is not None and uns.replace(' ', '') == "scoped_selector.rsplit('/',1)[-1]", 'C15.placeholder', construct(dr),
-            'the decision uses the unscoped selector and the parser\'s skip_unknown', 'the skip decision for references uses `%s`' % uns, dr.loc(), instance='args')
+  reference_delegate(ctx, 'C15.placeholder')
   uk = ctx.cls('config._UnknownConfigurableReference')
   dc = uk.methods.get('__deepcopy__')
   ctx.check(dc is not None and dc.qual in prog.noreturn, 'C15.placeholder', 'gin/config.py::_UnknownConfigurableReference.__deepcopy__',
@@ -135,3 +114,47 @@ def run(ctx):
   norm = [n for n in g2.live_nodes() if n.kind == 'stmt' and isinstance(n.ast, ast.Assign) and u(n.ast.targets[0]) == 'skip_unknown']
   ok = all(u(n.ast.value) == 'set(skip_unknown)' and any(f[0] == 'c' and f[2] is True and f[1].startswith('isinstance(skip_unknown') for f in facts2[n.id]) for n in norm)
   ctx.check(ok, 'C15.forward', construct(pc), 'the only rewrite of the option is list/tuple -> set', 'skip_unknown is rewritten as %s' % [u(n.ast.value) for n in norm], pc.loc(), instance='normalised')
+
+
+def reference_delegate(ctx, rule):
+  """The parser delegate builds a placeholder iff the reference's *unscoped* selector is skipped."""
+  prog = ctx.prog
+  dr = ctx.func('config.ParserDelegate.configurable_reference')
+  g3, facts3 = std_facts(prog, dr)
+  okp = True
+  n_r = 0
+  for n in g3.live_nodes():
+    if n.kind != 'return' or not isinstance(n.ast.value, ast.Call):
+      continue
+    n_r += 1
+    q = prog.resolve_call(dr, n.ast.value)
+    sk = [fct for fct in facts3[n.id] if fct[0] == 'c' and fct[1].startswith('_should_skip(')]
+    if q == 'config._UnknownConfigurableReference':
+      okp = okp and any(f[2] is True for f in sk)
+    elif q == 'config.ConfigurableReference':
+      okp = okp and any(f[2] is False for f in sk)
+    else:
+      okp = False
+  ctx.check(okp and n_r >= 2, rule, construct(dr), 'the delegate builds a placeholder iff the reference target is skipped, a real reference otherwise',
+            'the delegate no longer returns placeholder iff skipped', dr.loc(), instance='iff')
+  sk_calls = [c for c in walk_local(dr.node) if isinstance(c, ast.Call) and prog.resolve_call(dr, c) == SKIP]
+  ok = bool(sk_calls) and all(u(c.args[1]) == 'self._skip_unknown' for c in sk_calls)
+  uns = def_of(facts3[[n for n in g3.live_nodes() if n.kind == 'test'][0].id], u(sk_calls[0].args[0])) if sk_calls and [n for n in g3.live_nodes() if n.kind == 'test'] else None
+  ctx.check(ok and uns is not None and uns.replace(' ', '') == "scoped_selector.rsplit('/',1)[-1]", rule, construct(dr),
+            'the decision uses the unscoped selector and the parser\'s skip_unknown', 'the skip decision for references uses `%s`' % uns, dr.loc(), instance='args')
+
+
+def macro_always_applied(ctx, rule):
+  """A valueless binding `name = v` (macro definition) is applied whatever skip_unknown says."""
+  prog = ctx.prog
+  pc = ctx.func('config.parse_config')
+  g2, facts2 = std_facts(prog, pc)
+  binds = [n for n in g2.live_nodes() if any(prog.resolve_call(pc, c) == 'config.bind_parameter' for c in calls_of_node(n))]
+  macros = [n for n in binds if ('c', 'arg_name', False) in facts2[n.id]]
+  if not macros:
+    ctx.fail(rule, construct(pc), 'no bind site for valueless bindings (macro definitions) is left', pc.loc(), instance='macro-always')
+  for n in macros:
+    skip_f = [fct for fct in facts2[n.id] if fct[0] == 'c' and fct[1].startswith('_should_skip(')]
+    ctx.check(not skip_f, rule, construct(pc), 'macro definitions are always applied (never subject to skipping)',
+              'a macro definition is applied only when `%s` is %s: under skip_unknown=True the definition is silently dropped and %%name keeps an '
+              'older value or is unbound' % (skip_f[0][1], skip_f[0][2]) if skip_f else '', pc.loc(n.ast), instance='macro-always')
